@@ -41,6 +41,9 @@ TFlushEnd ==
     /\ Ev.sum = sumN /\ sumN = Ev.L                  \* CountExact
     /\ Ev.emitted = emitted /\ emitted = HDR + Ev.L + MAC   \* EmitOnce
     /\ Ev.peerOK = 1
+    \* a record of the opposite direction read while this one was partly out
+    \* arrived intact (and left this one intact: peerOK)
+    /\ Ev.rev \in {-1, 1}
     /\ Ev.refused \in {-1, 1}                        \* NoNewRecordWhilePending
     /\ UNCHANGED <<hdr, body, sumN, emitted>>
 
